@@ -62,8 +62,8 @@ PROPS = {
         ],
     },
     "C04": {
-        "modules": ["SamlModel.Props.C04", "SamlModel.Props.HandlerGen", "SamlModel.Props.SendBack", "SamlModel.Props.RedirectSignGen", "SamlModel.Props.Stateless", "SamlModel.Props.MetadataGen"],
-        "translated": ["createRedirectSignature", "BuildRedirectQuery", "getResponseCert", "Provider_GetMetadata"],
+        "modules": ["SamlModel.Props.C04", "SamlModel.Props.HandlerGen", "SamlModel.Props.SendBack", "SamlModel.Props.RedirectSignGen", "SamlModel.Props.Stateless", "SamlModel.Props.MetadataGen", "SamlModel.Props.PostSignGen"],
+        "translated": ["createRedirectSignature", "BuildRedirectQuery", "getResponseCert", "Provider_GetMetadata", "createPostSignature"],
         "trusted_base": COMMON_TRUST + CB_TRUST + [
             "RSA / SHA are not modelled: C04_redirect_query states that an independent verifier recovers exactly the signed octets, the algorithm URI and the signature bytes from the query sent; that rsa.VerifyPKCS1v15 then accepts is the law verify(pk, m, sign(sk, m)) of the scheme, observed with real keys on every redirect reply",
             "Lib.Url (QueryUnescape, the saml-bindings 3.4.4.1 verifier over the raw query) is written from the specification; it is compared on every run with net/url and with the harness's independent Go verifier (`lib qunesc`, `lib rverify`), also on the queries the real BuildRedirectQuery assembles from random values",
@@ -129,10 +129,10 @@ PROPS = {
         "assumptions": ["SpWF: registered metadata has an SPSSODescriptor (NewServiceProvider refuses metadata without one)"],
     },
     "C12": {
-        "modules": ["SamlModel.Props.C12", "SamlModel.Props.AttrQueryGen", "SamlModel.Props.AttrQueryProps", "SamlModel.Props.Stateless", "SamlModel.Props.LookupGen"],
+        "modules": ["SamlModel.Props.C12", "SamlModel.Props.AttrQueryGen", "SamlModel.Props.AttrQueryProps", "SamlModel.Props.Stateless", "SamlModel.Props.LookupGen", "SamlModel.Props.PostSignGen"],
         "translated": ["verifyRequestDestinationOfAttrQuery", "certificateCheckNecessary", "checkCertificate", "signaturePostProvided",
                        "ServiceProvider_GetEntityID", "Attributes_GetSAML", "Attributes_GetNameID", "getResponseCert",
-                       "makeAttributeQueryResponse", "IdentityProvider_attributeQueryHandleFunc", "IdentityProvider_GetServiceProvider"],
+                       "makeAttributeQueryResponse", "IdentityProvider_attributeQueryHandleFunc", "IdentityProvider_GetServiceProvider", "createPostSignature"],
         "trusted_base": COMMON_TRUST + AQ_TRUST + [
             "SOAP/XML decoding and XML-DSig validation of the query (ValidateAttributeQuerySignature: etree + goxmldsig) are oracles sampled with real keys",
         ],
